@@ -57,6 +57,16 @@ def invocations(w):
         # the client's omitted -formatid means the store's default namespace (one document), see DESIGN.md C20
         add("deletemetadata formatid=%r" % f, argv,
             lambda w, s, f=f: s.delete_metadata(pid, w.ns if f is None else f))
+    # the -path value reaches the API as it was spelled: a path through a directory that does not exist, or a file name
+    # with a trailing slash, names nothing (for the API and therefore for the client)
+    srcdir = src.rsplit("/", 1)[0]
+    for spelled in (srcdir + "/no-such-dir/../" + src.rsplit("/", 1)[1], src + "/", src + "/.",
+                    srcdir + "/./" + src.rsplit("/", 1)[1]):
+        add("storeobject path=%s" % spelled.replace(srcdir, "<dir>"), ["-storeobject", "-pid=" + w.pids[1], "-path=" + spelled],
+            lambda w, s, sp=spelled: s.store_object(w.pids[1], sp))
+        add("storemetadata path=%s" % spelled.replace(srcdir, "<dir>"),
+            ["-storemetadata", "-pid=" + w.pids[1], "-path=" + spelled.replace("c%d" % CONTENT_K, "d1"), "-formatid=c"],
+            lambda w, s, sp=spelled: s.store_metadata(w.pids[1], sp.replace("c%d" % CONTENT_K, "d1"), "c"))
     # option and value as two words (the other documented spelling), with a value that starts with a character some
     # argument parsers treat specially
     other = w.pids[1]
